@@ -279,7 +279,9 @@ class Session:
         fault = self.fault
         if st == b"\x01":
             ios_pub = bytes(req.get(hap.T_PK, b""))
-            eph_seed = C.det_bytes(self.acc.seed, f"acc-eph|{self.sid}")
+            # a conformant accessory draws a fresh ephemeral key per session; one that (unwisely) re-uses its key is still an accessory the
+            # controller has to be safe with: its own fresh key keeps the sessions apart
+            eph_seed = C.det_bytes(self.acc.seed, "acc-eph|fixed" if getattr(self.acc, "fixed_eph", False) else f"acc-eph|{self.sid}")
             ident = self.acc.ident
             kw = {}
             if fault == "wrong-id":
